@@ -89,9 +89,21 @@ class Normalizer:
                     return "*{%s%s}%s" % (self.call_atom(callee, args), base[len(k):], absint.pstr(p[1:]))
         return self.rename(absint.pstr(p))
 
+    def _unwrap_name(self, name):
+        """tryok:<bb><suffix> / unwrap:<bb><suffix>  ->  <source symbol>@Ok.0<suffix>"""
+        import re
+        m = re.match(r"(tryok|unwrap):(\d+)(.*)$", name)
+        if m and hasattr(self.it, "unwrap_src"):
+            src = self.it.unwrap_src.get("%s:%s" % (m.group(1), m.group(2)))
+            if src is not None and src[0] == "sym" and m.group(3):
+                return "%s@Ok.0%s" % (src[1], m.group(3))
+        return name
+
     def value_atom(self, v):
         """string atom for a non-arithmetic value"""
         v0 = v
+        if v[0] == "sym":
+            v = ("sym", self._unwrap_name(v[1]))
         if self.o is not None:
             v = self.it.resolve(self.o, v)
         if v[0] == "i":
@@ -140,7 +152,8 @@ class Normalizer:
                 return self.A("(1<<%s)" % show(fb))
             return self.A("%s(%s, %s)" % (op, show(fa), show(fb)))
         if k == "sym":
-            name = v[1]
+            name = self._unwrap_name(v[1])
+            v = ("sym", name)
             info = self.ret_info.get(name)
             if info:
                 callee, args = info
